@@ -29,7 +29,7 @@ RULE = (
 )
 ASSUMPTIONS = [
     "checksums are written as zero: their algorithm is not public and the reader does not verify them",
-    "root-level entries are nodes (as_dict() is defined for node roots only, as in every real file)",
+    "root-level entries are mostly nodes; one tree in six also has values at the top level",
     "the unused tail of a key table is at least one entry header (21 bytes) long, zero-filled or a free entry",
     "the replay log has no outstanding entries (replaying a dirty log is documented as not implemented)",
 ]
@@ -99,8 +99,13 @@ def tree_spec(draw, tier):
 
     nroot = draw(st.integers(0, 3))
     frontier = []
+    root_leaves = draw(st.integers(0, 5)) == 0  # the top level may hold values as well as nodes (an entry whose parent is the root)
     for k in keys(nroot):
-        frontier.append((add(None, k, "node", None, 0), 0))
+        if root_leaves and draw(st.booleans()):
+            t, v = draw(leaf())
+            add(None, k, t, v, 0)
+        else:
+            frontier.append((add(None, k, "node", None, 0), 0))
     budget_entries = draw(st.sampled_from([5, 15, 40, 80]))
     while frontier and len(entries) < budget_entries:
         parent, depth = frontier.pop(draw(st.integers(0, len(frontier) - 1)))
